@@ -143,7 +143,7 @@ def run(ctx):
             t[st["sent"]] = P(nid)
         eset = set((s, d) for s, d, _ in edges)
         total_edges += len(eset)
-        walks = rf.cover_walks(edges, init)
+        walks = rf.cover_walks(edges, init, rank=lambda nid, nodes=nodes: nodes[nid]["sent"])
         seen = set()
         for w in walks:
             seen.update(zip(w, w[1:]))
